@@ -47,7 +47,38 @@ func FSDiff(seed uint64, nops int) error {
 		}
 		return nil
 	}
+	// modification times: whenever the kernel's stamp of a path changes
+	// across one call (or the path becomes another inode), the model must
+	// have counted a content change of that path (its MTime is set exactly
+	// where Gen is). One direction only: two kernel writes inside one
+	// clock tick leave the kernel's stamp unchanged.
+	type stamp struct {
+		ok       bool
+		ino, gen uint64
+		mt       int64
+	}
+	snap := func(b simrt.Backend) map[string]stamp {
+		m := map[string]stamp{}
+		for _, n := range names {
+			if fi, err := b.Stat(n); err == nil && !fi.IsDir {
+				m[n] = stamp{true, fi.Ino, fi.Gen, fi.MTime}
+			}
+		}
+		return m
+	}
+	prevM, prevR := snap(mem), snap(real)
 	for i := 0; i < nops; i++ {
+		if i > 0 {
+			curM, curR := snap(mem), snap(real)
+			for _, n := range names {
+				pr, cr := prevR[n], curR[n]
+				pm, cm := prevM[n], curM[n]
+				if pr.ok && cr.ok && pm.ok && cm.ok && pr.ino == cr.ino && pr.mt != cr.mt && pm.ino == cm.ino && pm.gen == cm.gen {
+					return fmt.Errorf("seed %d: the kernel changed the modification time of %s, the model saw no content change\ntrace:\n%s", seed, n, strings.Join(trace, "\n"))
+				}
+			}
+			prevM, prevR = curM, curR
+		}
 		n := names[r.Intn(len(names))]
 		switch op := r.Intn(13); op {
 		case 0, 1: // open / create variants
